@@ -305,6 +305,16 @@ func (r *resolver) ResolveType(t *parser.Type) (err error) {
 // included IDL or -1 if the enum is defined in the given AST.
 // When such an enum is not found, getEnum returns (nil, -1).
 func getEnum(ast *parser.Thrift, name string) (enum *parser.Enum, includeIndex int32) {
+	return getEnumVisited(ast, name, make(map[typedefKey]bool))
+}
+
+// typedefKey identifies a typedef met while following typedefs in getEnum.
+type typedefKey struct {
+	ast  *parser.Thrift
+	name string
+}
+
+func getEnumVisited(ast *parser.Thrift, name string, seen map[typedefKey]bool) (enum *parser.Enum, includeIndex int32) {
 	c, exist := ast.Name2Category[name]
 	if !exist {
 		return nil, -1
@@ -320,13 +330,21 @@ func getEnum(ast *parser.Thrift, name string) (enum *parser.Enum, includeIndex i
 		if x, ok := ast.GetTypedef(name); !ok {
 			panic(fmt.Errorf("expect %q to be an typedef in %q, not found", name, ast.Filename))
 		} else {
+			// typedefs are resolved later (ResolveTypedefs reports cycles): do not loop on them here
+			k := typedefKey{ast: ast, name: name}
+			if seen[k] {
+				return nil, -1
+			}
+			seen[k] = true
 			if r := x.Type.Reference; r != nil {
-				e, _ := getEnum(ast.Includes[r.Index].Reference, r.Name)
+				e, _ := getEnumVisited(ast.Includes[r.Index].Reference, r.Name, seen)
 				if e != nil {
 					return e, r.Index
 				}
+				// the typedef names a definition of that include which is not an enum
+				return nil, -1
 			}
-			return getEnum(ast, x.Type.Name)
+			return getEnumVisited(ast, x.Type.Name, seen)
 		}
 	}
 	return nil, -1
